@@ -47,6 +47,7 @@ type Contract struct {
 	NoPanicP    []string
 	GhostParams []string                    // extern/func contracts: extra ghost parameters (witnesses) named in requires/ensures
 	CallGhost   map[string]map[string]SExpr // "callee#ordinal" -> ghost param -> expression (in the caller's contract)
+	Sets        []*SetClause                // ghost assignments performed at return ("sets G = e if c")
 	Decreases   *Clause
 	Loops       map[int]*LoopSpec
 	Uses        []string // axioms/lemmas to include
@@ -56,6 +57,13 @@ type Contract struct {
 	FrameP      []string
 	Line        int
 	File        string
+}
+
+type SetClause struct {
+	Ghost string
+	Expr  SExpr
+	Cond  SExpr // may be nil
+	Text  string
 }
 
 type SpecFunc struct {
@@ -193,7 +201,7 @@ func (cs *ContractSet) loadFile(path string) error {
 
 var keywords = map[string]bool{"callback": true, "func": true, "extern": true, "iface": true, "lemmafn": true, "spec": true, "axiom": true, "lemma": true, "ghost": true,
 	"requires": true, "ensures": true, "modifies": true, "nopanic": true, "loop": true, "props": true, "results": true,
-	"params": true, "use": true, "decreases": true, "ghostparams": true, "callsite": true, "trusted": true, "pure": true, "inline": true, "frame": true}
+	"params": true, "use": true, "decreases": true, "ghostparams": true, "callsite": true, "sets": true, "trusted": true, "pure": true, "inline": true, "frame": true}
 
 func startsWithKeyword(s string) bool {
 	w, _ := splitWord(s)
@@ -291,6 +299,31 @@ func (cs *ContractSet) addClause(c *Contract, w, rest string, line int, file str
 		return &Clause{Kind: kind, Label: label, View: view, Props: props, Text: rest, Expr: e, Line: line, File: file}, nil
 	}
 	switch w {
+	case "sets":
+		// sets G = expr [if cond]
+		kv := strings.SplitN(rest, "=", 2)
+		if len(kv) != 2 {
+			return fmt.Errorf("sets: want 'sets G = expr [if cond]'")
+		}
+		sc := &SetClause{Ghost: strings.TrimSpace(kv[0]), Text: rest}
+		rhs := kv[1]
+		if k := strings.Index(rhs, " if "); k >= 0 {
+			ce, err := parseSpec(rhs[k+4:])
+			if err != nil {
+				return err
+			}
+			sc.Cond = ce
+			rhs = rhs[:k]
+		}
+		ee, err := parseSpec(rhs)
+		if err != nil {
+			return err
+		}
+		sc.Expr = ee
+		c.Sets = append(c.Sets, sc)
+		// the ghost variable belongs to the frame
+		c.HasMod = true
+		c.Modifies = append(c.Modifies, &Clause{Kind: "modifies", Text: sc.Ghost, Expr: SIdent{sc.Ghost}, Line: line, File: file})
 	case "ghostparams":
 		c.GhostParams = strings.Fields(strings.ReplaceAll(rest, ",", " "))
 	case "callsite":
